@@ -98,7 +98,7 @@ prop("C18",
 
 prop("C01", guards=True, funcs=True,
      rule="generated documents: valid / mutated once / mutated twice / truncated (2000 quick, 20000 thorough) plus boundary-size inputs (0..4097 bytes of one byte value) through every safe entry point: 20 parse targets x carriers, get / get_many / get_by_schema with a generated path, lazy and owned-lazy accessors, views, iterators, stream, serialization and Display/Debug of whatever was produced and of every error; verdict per input: no panic, the tracked allocations of the call return to the baseline, and the 64-byte guard zone the harness allocator keeps behind every heap block is intact when the block is freed or resized; escapes of every width (1-4 bytes of UTF-8, pairs) behind 0..40 / 56..66 / 120..136 / 248..262 plain bytes (0..600 thorough) as value, member name and stream element, so that every fill level of the decoding buffers is met; nesting of 200000 levels in a child process must be an error, not a stack overflow",
-     assumptions=["PARTIAL: of the memory errors that do not crash, writes past the end of a heap block (up to 64 bytes) are observed through guard zones; stray reads, writes in front of a block or into the stack are not (no sanitizer)"])
+     assumptions=["PARTIAL: of the memory errors that do not crash, writes past the end of a heap block (up to 64 bytes) are observed through guard zones; freed blocks are overwritten so that dangling reads show as a pattern; stray reads of live memory, writes in front of a block or into the stack are not observed (no sanitizer)"])
 
 def classify_known(pid, case, known):
     """return the id of the recorded known finding this mismatch belongs to, or None"""
